@@ -44,6 +44,29 @@ def gtens_list(ts):
     return "[" + "; ".join(gtens(t) for t in ts) + "]" if len(ts) else "(@nil (tensor (Z * Z)))"
 
 
+def grow(r):
+    r = list(np.asarray(r).ravel())
+    return "[" + "; ".join(gz(x) for x in r) + "]" if len(r) else "(@nil (Z * Z))"
+
+
+def gmat(A):
+    A = np.asarray(A)
+    if A.ndim == 1:
+        A = A.reshape(1, -1)
+    return "[" + "; ".join(grow(r) for r in A) + "]" if len(A) else "(@nil (list (Z * Z)))"
+
+
+def gmats(fs):
+    return "[" + "; ".join(gmat(f) for f in fs) + "]" if len(fs) else "(@nil (list (list (Z * Z))))"
+
+
+def cint(rng, shape, dtype=np.complex128):
+    n = int(np.prod(shape))
+    re = np.array([rng.randint(-2, 2) for _ in range(n)], dtype=np.float64)
+    im = np.array([rng.randint(-2, 2) for _ in range(n)], dtype=np.float64)
+    return (re + 1j * im).reshape(shape).astype(dtype)
+
+
 def gen_ctt(rng, ring, dtype):
     """complex cores (r_i, n_i, r_{i+1}) with Gaussian-integer entries; at least one entry of every core has a non-zero imaginary part"""
     N = rng.randint(1, 3)
@@ -170,6 +193,9 @@ def run_round7(chk, rng, judge, mult, emit):
 
     def sh(arrs):
         return tuple(tuple(np.asarray(a).shape) for a in arrs)
+
+    def sperm_(rng_, n):
+        return H.sperm(rng_, n + rng_.randint(0, 2), n)
 
     # --- (A) complex cores: dense reconstruction and padding over the Gaussian integers (exact)
     for it in range(16 * mult):
@@ -351,3 +377,76 @@ def run_round7(chk, rng, judge, mult, emit):
             obs = f"({C.nat_list([int(d) for d in obj.shape])}, {C.nat_list([int(d) for d in obj.rank])}, ({qtens(np.asarray(obj.core))}, {qmats([np.asarray(f) for f in obj.factors])}))"
             emit(lambda: f"QTkObjNorm {tl_} {qtens(core)} {qmats(fs)} {C.nat_list(list(range(len(fs))))} (Ok {obs})", ("TuckerTensor.normalize", sh(fs), feat))
         judge("tucker_obj_normalize", {"core": core, "fs": fs}, (sh(fs), feat))
+
+    # --- (E) mode products of complex CP / Tucker tensors (Gaussian-integer entries, exact at the level of the represented tensor)
+    from tensorly.cp_tensor import CPTensor, cp_mode_dot
+    from tensorly.tucker_tensor import tucker_mode_dot
+    for it in range(6 * mult):
+        N, R = rng.randint(1, 3), rng.randint(1, 2)
+        dims = [rng.randint(1, 3) for _ in range(N)]
+        w, fs = cint(rng, (R,)), [cint(rng, (d, R)) for d in dims]
+        for mode in [rng.randrange(N), -1 - rng.randrange(N)]:
+            kind = rng.choice(["mat", "vec", "veck"])
+            d = fs[mode].shape[0]
+            x = cint(rng, (rng.randint(1, 3), d)) if kind == "mat" else cint(rng, (d,))
+            kd, copy = kind == "veck", rng.random() < 0.5
+            st, out = call(cp_mode_dot, CPTensor((w.copy(), cps(fs))), x.copy(), mode, keep_dim=kd, copy=copy)
+            chk.hist("outcome", st); chk.hist("complex_mode_dot", "cp:" + kind)
+            if st != "ok":
+                lit = "Err"
+            elif not gaussian_integral(out[0], *out[1]) or any(np.asarray(f).ndim != 2 for f in out[1]):
+                lit = "(Ok ([((99999)%Z, (0)%Z)], (@nil (list (list (Z * Z))))))"
+            else:
+                lit = f"(Ok ({grow(out[0])}, {gmats([np.asarray(f) for f in out[1]])}))"
+            xl = f"(OpMat {gmat(x)})" if x.ndim == 2 else f"(OpVec {grow(x)})"
+            emit(lambda: f"GModeDot {grow(w)} {gmats(fs)} {xl} {C.z(mode)} {C.boolc(kd)} {lit}", ("cp_mode_dot", "complex", tuple(dims) + (R,), mode, kind, copy))
+            if not (kind == "vec" and N == 1):
+                judge("cp_mode_dot", {"w": w, "fs": fs, "x": x, "mode": mode, "keep_dim": kd, "copy": copy, "x2": None}, ("complex", tuple(dims) + (R,), mode, kind, copy))
+        N = rng.randint(2, 3)
+        dims, ranks = [rng.randint(1, 3) for _ in range(N)], [rng.randint(1, 2) for _ in range(N)]
+        core, fs = cint(rng, ranks), [cint(rng, (d, r)) for d, r in zip(dims, ranks)]
+        for mode in [rng.randrange(N), -1 - rng.randrange(N)]:
+            kind = rng.choice(["mat", "vec", "veck"])
+            d = fs[mode].shape[0]
+            x = cint(rng, (rng.randint(1, 3), d)) if kind == "mat" else cint(rng, (d,))
+            kd, copy = kind == "veck", rng.random() < 0.5
+            st, out = call(tucker_mode_dot, TuckerTensor((core.copy(), cps(fs))), x.copy(), mode, keep_dim=kd, copy=copy)
+            chk.hist("outcome", st); chk.hist("complex_mode_dot", "tucker:" + kind)
+            if st != "ok":
+                lit = "Err"
+            elif not gaussian_integral(out[0], *out[1]) or any(np.asarray(f).ndim != 2 for f in out[1]):
+                lit = "(Ok (mk [99999]%nat (@nil (Z * Z)), (@nil (list (list (Z * Z))))))"
+            else:
+                lit = f"(Ok ({gtens(out[0])}, {gmats([np.asarray(f) for f in out[1]])}))"
+            xl = f"(OpMat {gmat(x)})" if x.ndim == 2 else f"(OpVec {grow(x)})"
+            emit(lambda: f"GTkDot {gtens(core)} {gmats(fs)} {xl} {C.z(mode)} {C.boolc(kd)} {lit}", ("tucker_mode_dot", "complex", sh(fs), mode, kind, copy))
+            if not (kind == "vec" and N == 2):
+                judge("tucker_mode_dot", {"core": core, "fs": fs, "x": x, "mode": mode, "keep_dim": kd, "copy": copy, "x2": None}, ("complex", sh(fs), mode, kind, copy))
+
+    # --- (F) svd_decompress and the caller's projection LIST (Model/TransformsPfHeap.v): lists naming one projection array for two slices,
+    #     every result entry with a loading is a fresh array, the operand's list and arrays are untouched
+    for it in range(8 * mult):
+        w, (A, B, Cm), Ps = H.gen_pf2_int(rng)
+        I = len(Ps)
+        arrs, ls = list(Ps), list(range(I))
+        twins = [(a, b) for a in range(I) for b in range(a + 1, I) if Ps[a].shape == Ps[b].shape]
+        if twins and it % 2 == 0:
+            a, b = rng.choice(twins); ls[b] = a
+        held = [np.array(a_, copy=True) for a_ in arrs]
+        plist = [held[l] for l in ls]
+        Ls = [None if rng.random() < 0.4 else sperm_(rng, plist[k].shape[0]) for k in range(I)]
+        st, pf = call(lambda: Parafac2Tensor((w.copy(), cps([A, B, Cm]), plist)))
+        if st != "ok":
+            continue
+        st, out = call(lambda: svd_decompress_parafac2_tensor(pf, [None if L is None else L.copy() for L in Ls]))
+        chk.hist("outcome", st); chk.hist("decompress_heap", "twins" if len(set(ls)) < I else "distinct")
+        if st == "ok" and H.integral(*out[2]) and all(np.asarray(p).ndim == 2 for p in out[2]) and len(out[2]) == I:
+            lit = f"(Ok {zmats([np.asarray(p) for p in out[2]])})"
+            shared = [any(np.shares_memory(np.asarray(out[2][k]), h) for h in held) for k in range(I)]
+        else:
+            lit = "Err" if st != "ok" else "(Ok [[[(99999)%Z]]])"
+            shared = [True] * I
+        list_same = pf.projections is plist and len(plist) == I and all(plist[k] is held[ls[k]] for k in range(I))
+        emit(lambda: f"ZDecompHeap {zmats(arrs)} {C.nat_list(ls)} {H.zopt_mats(Ls)} {lit} {zmats(held)} [{'; '.join(C.boolc(b) for b in shared)}] {C.boolc(list_same)}",
+             ("svd_decompress", "heap", sh(plist), tuple(ls), tuple(L is None for L in Ls)))
+        judge("svd_decompress_parafac2_tensor", {"w": w, "fs": [A, B, Cm], "Ps": plist, "Ls": Ls}, ("heap", sh(plist), tuple(ls), tuple(L is None for L in Ls)))
